@@ -65,7 +65,17 @@ def match(t, p, env=None):
             return True
         if len(p.args) != len(t[2]):
             return False
-        return all(match(a, q, env) for a, q in zip(t[2], p.args))
+        e = dict(env)
+        if all(match(a, q, e) for a, q in zip(t[2], p.args)):
+            env.update(e)
+            return True
+        # max / min are commutative
+        if len(p.args) == 2 and (t[1].endswith('::max') or t[1].endswith('::min')):
+            e = dict(env)
+            if match(t[2][1], p.args[0], e) and match(t[2][0], p.args[1], e):
+                env.update(e)
+                return True
+        return False
     if isinstance(p, tuple):
         if not isinstance(t, tuple) or len(t) < len(p):
             return False
@@ -73,8 +83,36 @@ def match(t, p, env=None):
             raise ValueError('use Call() for call patterns')
         if len(t) != len(p):
             return False
+        if p and p[0] == 'bin' and len(p) == 4 and isinstance(p[1], str) and t[0] == 'bin':
+            return _match_bin(t, p, env)
         return all(match(a, q, env) for a, q in zip(t, p))
     return t == p
+
+
+COMMUTATIVE = {'Add', 'Mul', 'Eq', 'Ne', 'BitAnd', 'BitOr', 'BitXor'}
+FLIPPED = {'Lt': 'Gt', 'Gt': 'Lt', 'Le': 'Ge', 'Ge': 'Le'}
+
+
+def _try(t2, t3, p2, p3, env):
+    e = dict(env)
+    if match(t2, p2, e) and match(t3, p3, e):
+        env.update(e)
+        return True
+    return False
+
+
+def _match_bin(t, p, env):
+    """binary operator patterns are matched modulo commutativity (a + b = b + a) and comparison flipping (a < b = b > a)"""
+    op, top = p[1], t[1]
+    if op == top:
+        if _try(t[2], t[3], p[2], p[3], env):
+            return True
+        if op in COMMUTATIVE and _try(t[3], t[2], p[2], p[3], env):
+            return True
+        return False
+    if FLIPPED.get(op) == top:
+        return _try(t[3], t[2], p[2], p[3], env)
+    return False
 
 
 def find(t, p):
@@ -131,3 +169,25 @@ def step(t, name):
         if s[0] == name:
             return s[2], s[3]
     return None
+
+
+NEGATED = {'Eq': 'Ne', 'Ne': 'Eq', 'Lt': 'Ge', 'Ge': 'Lt', 'Gt': 'Le', 'Le': 'Gt'}
+
+
+def holds(body, blk, pattern, negate=False):
+    """Is the condition `pattern` (a pattern over core trees) known to hold at block `blk`, i.e. implied by a guard whose
+    edge dominates the block? Comparison patterns also match the negated guard: `!(a < b)` proves `a >= b`; commutativity
+    and operand flipping are handled by match()."""
+    from .sym import atoms_at, core
+    want = not negate
+    for t, pol, g in atoms_at(body, blk):
+        if pol is None:
+            continue
+        c = core(t)
+        if pol is want and match(c, pattern):
+            return True
+        if isinstance(pattern, tuple) and pattern and pattern[0] == 'bin' and pattern[1] in NEGATED and c[0] == 'bin':
+            neg = ('bin', NEGATED[pattern[1]], pattern[2], pattern[3])
+            if pol is (not want) and match(c, neg):
+                return True
+    return False
